@@ -1,21 +1,21 @@
 SPECIFICATION Spec
 CONSTANTS
   ElemIgnore = TRUE
-  Shape <- AliasShape
-  MinVisSet <- PubOnly
+  Shape <- AliasNestShape
+  MinVisSet <- Both
   File2Srcs <- None
   ClassHeads <- AliasHeads
-  NestedKeys <- None
-  MemberAlpha <- AliasMembers
-  MaxMembers <- M20
+  NestedKeys <- NestCS
+  MemberAlpha <- ANMembers
+  MaxMembers <- M31
   MaxClasses = 2
   BaseAlpha <- None
   MaxBases = 1
   ClassComments <- NoComment
   TopAlpha <- AliasTops
-  MaxTops = 1
-  AliasAlpha <- AliasForms
-  MaxAliases = 2
+  MaxTops = 0
+  AliasAlpha <- ANForms
+  MaxAliases = 1
   CmdKinds <- IgnInv
 INVARIANT SafeVis
 INVARIANT SafeAccess
